@@ -30,7 +30,10 @@ def run_rust(main_rs, repo, work, profiles=("debug", "release"), hooks=False):
     os.makedirs(os.path.join(d, "src"), exist_ok=True)
     with open(os.path.join(d, "Cargo.toml"), "w") as f:
         f.write(CARGO_TOML % repo)
-    shutil.copy(os.path.join(repo, "Cargo.lock"), os.path.join(d, "Cargo.lock"))
+    for lock in (os.path.join(repo, "Cargo.lock"), "/repo/Cargo.lock"):
+        if os.path.exists(lock):      # a scratch worktree may not have one yet
+            shutil.copy(lock, os.path.join(d, "Cargo.lock"))
+            break
     with open(os.path.join(d, "src", "main.rs"), "w") as f:
         f.write(main_rs)
     env = dict(os.environ, CARGO_NET_OFFLINE="true", CARGO_TARGET_DIR=os.path.join(work, "replay-target"))
@@ -59,6 +62,22 @@ use substrate_fixed::types::extra::*;
 use substrate_fixed::*;
 use substrate_fixed::traits::*;
 use std::panic::catch_unwind;
+fn mul_wide(a: u128, b: u128) -> (u128, u128) {
+    let (a1, a0) = (a >> 64, a & 0xffff_ffff_ffff_ffff);
+    let (b1, b0) = (b >> 64, b & 0xffff_ffff_ffff_ffff);
+    let (p00, p01, p10, p11) = (a0 * b0, a0 * b1, a1 * b0, a1 * b1);
+    let mid = (p00 >> 64) + (p01 & 0xffff_ffff_ffff_ffff) + (p10 & 0xffff_ffff_ffff_ffff);
+    let lo = (p00 & 0xffff_ffff_ffff_ffff) | (mid << 64);
+    let hi = p11 + (p01 >> 64) + (p10 >> 64) + (mid >> 64);
+    (hi, lo)
+}
+fn le_wide(a: (u128, u128), b: (u128, u128)) -> bool { a.0 < b.0 || (a.0 == b.0 && a.1 <= b.1) }
+fn within4_wide(r: u128, n: u128, f: u32) -> bool {
+    let target = if f == 0 { (0, n) } else { (n >> (128 - f), n << f) };
+    let up = mul_wide(r + 4, r + 4);
+    let lo_ok = if r >= 4 { le_wide(mul_wide(r - 4, r - 4), target) } else { true };
+    le_wide(target, up) && lo_ok
+}
 fn show<T: std::fmt::Debug>(r: std::thread::Result<T>) -> String {
     match r { Ok(v) => format!("{:?}", v), Err(_) => "PANIC".to_string() }
 }
